@@ -72,7 +72,7 @@ func (ts *taskSource) each(yield func(t c04Task) bool) {
 		return yield(c04Task{entry, label, data, v, aux})
 	}
 	// ---- A/B: frames from the TLC vectors and their structure-aware mutations
-	stride := 2
+	stride := 1
 	if !ts.deep {
 		stride = 11
 	}
@@ -322,7 +322,7 @@ func (ts *taskSource) each(yield func(t c04Task) bool) {
 	nrand := 4000
 	if ts.deep {
 		sizes = append(sizes, 1<<20)
-		nrand = 30000
+		nrand = 400000
 	}
 	for i := 0; i < nrand; i++ {
 		n := sizes[rnd.Intn(len(sizes))]
